@@ -76,11 +76,42 @@ class _Abstract(ast.NodeTransformer):
         return node
 
 
+class _Canon(ast.NodeTransformer):
+    """operand order of commutative comparisons and of and/or, and the
+    direction of < / >, do not matter for a fingerprint"""
+    def visit_Compare(self, node):
+        self.generic_visit(node)
+        if len(node.ops) == 1:
+            op = type(node.ops[0])
+            a, b = node.left, node.comparators[0]
+            if op in (ast.Gt, ast.GtE):
+                op = ast.Lt if op is ast.Gt else ast.LtE
+                a, b = b, a
+            elif op in (ast.Eq, ast.NotEq, ast.Is, ast.IsNot):
+                if _u0(b) < _u0(a):
+                    a, b = b, a
+            return ast.Compare(left=a, ops=[op()], comparators=[b])
+        return node
+
+    def visit_BoolOp(self, node):
+        self.generic_visit(node)
+        node.values = sorted(node.values, key=_u0)
+        return node
+
+
+def _u0(e) -> str:
+    try:
+        return ast.unparse(e)
+    except Exception:
+        return ast.dump(e)
+
+
 def _abs(e: Optional[ast.AST], names: Set[str]) -> str:
     if e is None:
         return ''
     import copy
     t = _Abstract(names).visit(copy.deepcopy(e))
+    t = _Canon().visit(t)
     try:
         return ast.unparse(t)
     except Exception:
@@ -168,7 +199,7 @@ def align(fn: ast.AST, base: Dict[str, List[str]]) -> Dict[str, str]:
         for b in missing:
             if b in taken or b in used_ids:
                 continue
-            if base[b] == fe:
+            if sorted(base[b]) == sorted(fe):
                 mapping[e] = b
                 taken.add(b)
                 break
@@ -255,6 +286,80 @@ def undo_polarity(fn: ast.AST, base_tests) -> int:
     return k
 
 
+_FLIP = {ast.Eq: ast.Eq, ast.NotEq: ast.NotEq, ast.Is: ast.Is,
+         ast.IsNot: ast.IsNot, ast.Lt: ast.Gt, ast.Gt: ast.Lt,
+         ast.LtE: ast.GtE, ast.GtE: ast.LtE}
+
+
+def _u(e) -> str:
+    try:
+        return ast.unparse(e)
+    except Exception:
+        return ast.dump(e)
+
+
+def compares(fn: ast.AST) -> List[str]:
+    return [_u(n) for n in ast.walk(fn) if isinstance(n, ast.Compare)
+            and len(n.ops) == 1 and type(n.ops[0]) in _FLIP]
+
+
+def boolops(fn: ast.AST) -> List[List[str]]:
+    return [[type(n.op).__name__] + [_u(v) for v in n.values]
+            for n in ast.walk(fn) if isinstance(n, ast.BoolOp)]
+
+
+def undo_flips(fn: ast.AST, base_cmp: List[str],
+               base_bool: List[List[str]]) -> int:
+    """`b == a` for a baseline `a == b` (and `b > a` for `a < b`) is turned
+    back; operands of and / or are put back into the baseline order when
+    they are the same operands.  (Reordering operands of and/or is only
+    behaviour-preserving for effect-free operands; that is what a refactor
+    that does it assumes, and the analysis never executes them.)"""
+    from collections import Counter
+    k = 0
+    want = Counter(base_cmp)
+    todo = []
+    for n in ast.walk(fn):
+        if isinstance(n, ast.Compare) and len(n.ops) == 1 and \
+                type(n.ops[0]) in _FLIP:
+            t = _u(n)
+            if want[t] > 0:
+                want[t] -= 1
+            else:
+                todo.append(n)
+    for n in todo:
+        flipped = ast.Compare(left=n.comparators[0],
+                              ops=[_FLIP[type(n.ops[0])]()],
+                              comparators=[n.left])
+        t = _u(flipped)
+        if want[t] > 0:
+            want[t] -= 1
+            n.left, n.comparators, n.ops = (flipped.left,
+                                            flipped.comparators, flipped.ops)
+            k += 1
+    wantb = Counter(tuple(x) for x in base_bool)
+    by_bag = {}
+    for x in base_bool:
+        by_bag.setdefault((x[0], tuple(sorted(x[1:]))), []).append(x)
+    for n in ast.walk(fn):
+        if not isinstance(n, ast.BoolOp):
+            continue
+        cur = tuple([type(n.op).__name__] + [_u(v) for v in n.values])
+        if wantb[cur] > 0:
+            wantb[cur] -= 1
+            continue
+        cands = by_bag.get((cur[0], tuple(sorted(cur[1:]))), [])
+        for c in cands:
+            if wantb[tuple(c)] > 0:
+                wantb[tuple(c)] -= 1
+                order = {t: i for i, t in enumerate(c[1:])}
+                if len(order) == len(c) - 1:      # distinct operands only
+                    n.values.sort(key=lambda v: order[_u(v)])
+                    k += 1
+                break
+    return k
+
+
 def canonicalise_function(key: str, fn: ast.AST) -> int:
     b = baseline().get(key)
     if not b:
@@ -262,7 +367,11 @@ def canonicalise_function(key: str, fn: ast.AST) -> int:
     mp = align(fn, b.get('l', {}))
     if mp:
         _Rename(mp).visit(fn)
-    k = undo_polarity(fn, b.get('i', [])) if 'i' in b else 0
+    k = 0
+    if 'c' in b:
+        k += undo_flips(fn, b.get('c', []), b.get('b', []))
+    if 'i' in b:
+        k += undo_polarity(fn, b.get('i', []))
     return len(mp) + k
 
 
